@@ -339,6 +339,31 @@ func (g *fgen) buildForm(f *formRow) *ir.Instruction {
 		}
 		ops = append(ops, op)
 	}
+	if f.Features&featCancelling != 0 && len(ops) >= 2 {
+		// self-cancelling forms: sometimes the same register twice (not a read), sometimes the low and the high
+		// byte of ONE register (same identity, different bytes: both are reads)
+		a, ok1 := ops[0].(reg.Register)
+		b, ok2 := ops[1].(reg.Register)
+		if ok1 && ok2 {
+			switch g.r.intn(6) {
+			case 0:
+				ops[1] = ops[0]
+				g.stats["cancelling_same"]++
+			case 1, 2:
+				if a.Kind() == reg.KindGP && a.Size() == 1 && b.Size() == 1 {
+					base := g.pickReg(reg.KindGP, reg.S16, true)
+					lo, hi := asSpec(base, reg.S8L), asSpec(base, reg.S8H)
+					if lo != nil && hi != nil {
+						if g.r.chance(1, 2) {
+							lo, hi = hi, lo
+						}
+						ops[0], ops[1] = lo, hi
+						g.stats["cancelling_other_view"]++
+					}
+				}
+			}
+		}
+	}
 	var sfx []string
 	if len(f.Suffixes) > 0 {
 		sfx = pick(g.r, f.Suffixes)
